@@ -6,15 +6,15 @@ from c04 import group_sort
 STRATS = ['SimpleInv', 'BlockLU', 'SimpleLU']
 
 
-def mk(t, n, strat, band=None):
+def mk(t, n, strat, band=None, arg='tensor'):
     ct = CTYPE[t]
     tt = tensor_t(t, [n, n])
-    wit = 'extern "C" void @W@(const %s& A, %s& X){ X = inverse<InvCompType::%s>(A); }' % (tt, tt, strat)
+    wit = 'extern "C" void @W@(const %s& A, %s& X){ X = inverse<InvCompType::%s>(%s); }' % (tt, tt, strat, 'A' if arg == 'tensor' else 'A+0')
     ref = pre_ldu(ct, n, band) + '\n' + post_residual(ct, n)
     regions = ldu_regions(t, n) + [treg('A', t, [n, n], 'in', init='undef'), treg('X', t, [n, n], 'out'), rreg('R1', t, n * n), rreg('R2', t, n * n)]
     stages = [{'mod': 'ref', 'fn': '@R@pre', 'args': ['lam', 'del', 'mu', 'A']}, {'mod': 'wit', 'fn': '@W@', 'args': ['A', 'X']}, {'mod': 'ref', 'fn': '@R@post', 'args': ['A', 'X', 'R1', 'R2']}]
     obl = [{'kind': 'zero', 'region': 'R1', 'cells': n * n}, {'kind': 'zero', 'region': 'R2', 'cells': n * n}]
-    return Witness('inv_%s_%s_%d%s' % (t, strat, n, band_tag(band)), 'inverse.' + strat + ('.banded' if isinstance(band, int) else ('.' + band if band else '.full')), {'type': t, 'n': n, 'strategy': strat, 'band': band}, wit, ref, regions, stages, obl,
+    return Witness('inv_%s_%s_%d%s%s' % (t, strat, n, band_tag(band), '' if arg == 'tensor' else '_expr'), 'inverse.' + strat + ('' if arg == 'tensor' else '.expr') + ('.banded' if isinstance(band, int) else ('.' + band if band else '.full')), {'type': t, 'n': n, 'strategy': strat, 'band': band}, wit, ref, regions, stages, obl,
                    extra={'poly_cap': 600000, 'max_steps': 200000000})
 
 
@@ -66,6 +66,8 @@ def witnesses(tier, seed):
                     W.append(mk(t, n, strat, band='hub'))
             for n in (1, 2, 3, 4, 5, 8, 9, 16, 17):
                 W.append(mk_plain(t, n, strat))
+            for n in (3, 5, 9):
+                W.append(mk(t, n, strat, band=(None if n <= 5 else 1), arg='expr'))
         for uplo in ('Upper', 'UniLower'):
             for n in ([2, 3, 4, 5, 8, 9] if quick else [2, 3, 4, 5, 6, 7, 8, 9, 12, 16, 17]):
                 W.append(mk_tinverse(t, n, uplo))
@@ -83,6 +85,9 @@ def witnesses(tier, seed):
                     continue
                 w = mk(t, n, strat); w.family = 'inverse.' + strat + '.pivoted'; w.extra['max_ms'] = 400000
                 W.append(w)
+                if t == 'f64' and n >= 2:     # expression operands: separate overloads that must forward the strategy
+                    w = mk(t, n, strat, arg='expr'); w.family = 'inverse.' + strat + '.pivoted.expr'; w.extra['max_ms'] = 400000
+                    W.append(w)
     W += pivot_helper_witnesses(['colwise'], tier)
     return group_sort(W)
 
